@@ -1061,3 +1061,27 @@ def record_fields(fn, assume):
     if r is not True:
         return None
     return dicts["<return>"], order
+
+
+def bool_eval(test, atom):
+    """three-valued evaluation of a boolean expression with Python's short-circuit order: atom(node) -> True / False / None
+    (not an atom) / "undef" (evaluating it would fail).  Returns True / False / None (unknown) / "undef"."""
+    if isinstance(test, ast.UnaryOp) and isinstance(test.op, ast.Not):
+        v = bool_eval(test.operand, atom)
+        return (not v) if isinstance(v, bool) else v
+    if isinstance(test, ast.BoolOp):
+        is_and = isinstance(test.op, ast.And)
+        unknown = False
+        for v_ in test.values:
+            v = bool_eval(v_, atom)
+            if v == "undef":
+                return "undef"
+            if v is None:
+                unknown = True
+                continue
+            if is_and and v is False:
+                return None if unknown else False
+            if not is_and and v is True:
+                return None if unknown else True
+        return None if unknown else is_and
+    return atom(test)
